@@ -252,6 +252,8 @@ def train_on_policy(
                     # Act in environment
                     next_state, reward, term, trunc, info = env.step(clipped_action)
                     next_done = np.logical_or(term, trunc).astype(np.int8)
+                    if not is_vectorised:
+                        next_done = np.array([next_done])
 
                     total_steps += num_envs
                     steps += num_envs
